@@ -45,6 +45,12 @@ NOTES = """Interpretation choices (soundness first):
   fall on different sides of the maximum for the whole text and for the remainder after one and two cuts; through SplitToSize,
   ChunkDocumentWithConfig and (characters) NewChunkerWithConfig().Chunk.  tabula's ChunksWithConfig is not driven here: it needs
   a PDF and the layout stage re-flows the text, so exact byte windows cannot be placed (not cheap, not covered).
+* Sentence shapes: every text of <= MaxChars characters over {letter, 3-byte letter, space, sentence end ('.', '!', '?' in
+  turn), newline} is, for the unit characters, also given as one paragraph to NewChunkerWithConfig(MaxChunkSize = limit) and
+  ChunkDocumentWithConfig - with limits 1..6 every text is an oversized element, so the sentence packing (splitIntoSentences)
+  sees every arrangement, e.g. a sentence end followed at once by a capital and a period at the start, in the middle and at
+  the end ("A.B.", ".A!").  Profiles add the separators "word.A. " and "word U.S.A. ".  A panic in any of the calls is a
+  violation of its own: C13:panic:<api>.
 * Token maxima: the budget is the configured one - a piece holds at most max tokens where tokens = characters div
   (1 / TokensPerChar); the trace carries cpt = 1 / TokensPerChar (10, 4, 2, 1) and the limit position of the probes is
   max x cpt bytes.  The overlap dimension is independent of the size configuration in the code (the overlap generator never
